@@ -36,6 +36,7 @@ func families(quick bool) []txnh.Family {
 		return []txnh.Family{
 			{Name: "ns-2txn", Slots: rep(full, 2), MaxOps: []int{2, 2}, Ends: cd, Reduce: true, Symmetry: true},
 			{Name: "ns-3txn", Slots: rep(full, 3), MaxOps: []int{1, 1, 1}, Ends: cd, Reduce: true, Symmetry: true},
+			{Name: "ns-2txn-readonly", Slots: [][]string{full, {"get:a", "get:b", "scan"}}, MaxOps: []int{2, 3}, Ends: cd, ReadOnly: []bool{false, true}, Reduce: true},
 			{Name: "ns-3txn-rw", Slots: [][]string{full, wrs, wrs}, MaxOps: []int{2, 1, 1}, SlotEnds: [][]string{cd, {"commit"}, {"commit"}}, Reduce: true},
 			{Name: "fresh-3txn", Slots: [][]string{small, {"set:a"}, {"set:b"}}, MaxOps: []int{2, 1, 1}, Ends: []string{"commit"}, Reduce: true, Fresh: true},
 			{Name: "fresh-maint", Slots: rep(mnt, 2), MaxOps: []int{1, 1}, Ends: []string{"commit"}, Reduce: true, Fresh: true, Warm: 1, EnvSets: env},
@@ -44,9 +45,14 @@ func families(quick bool) []txnh.Family {
 	return []txnh.Family{
 		{Name: "ns-2txn", Slots: rep(full, 2), MaxOps: []int{3, 3}, Ends: cd, Reduce: true, Symmetry: true},
 		{Name: "ns-3txn", Slots: rep(full, 3), MaxOps: []int{2, 1, 1}, Ends: cd, Reduce: true},
+		{Name: "ns-2txn-readonly", Slots: [][]string{full, {"get:a", "get:b", "scan"}}, MaxOps: []int{3, 3}, Ends: cd, ReadOnly: []bool{false, true}, Reduce: true},
+		{Name: "ns-3txn-rw", Slots: [][]string{full, wrs, wrs}, MaxOps: []int{2, 2, 1}, SlotEnds: [][]string{cd, {"commit"}, {"commit"}}, Reduce: true},
 		{Name: "ns-2txn-nopor", Slots: rep(full, 2), MaxOps: []int{2, 2}, Ends: cd, Reduce: false, Symmetry: true},
-		{Name: "fresh-3txn", Slots: rep(small, 3), MaxOps: []int{2, 2, 1}, Ends: []string{"commit"}, Reduce: true, Fresh: true},
+		{Name: "fresh-3txn", Slots: rep(small, 3), MaxOps: []int{2, 1, 1}, Ends: []string{"commit"}, Reduce: true, Fresh: true},
+		{Name: "fresh-3txn-reused-readts", Slots: [][]string{small, {"set:a"}, {"set:b"}}, MaxOps: []int{2, 1, 1}, Ends: []string{"commit"}, Reduce: true, Fresh: true, Warm: 3},
 		{Name: "fresh-maint", Slots: rep(mnt, 2), MaxOps: []int{2, 2}, Ends: []string{"commit"}, Reduce: true, Fresh: true, Warm: 1, EnvSets: env},
+		// deepest family last: if the time budget runs out it is the one that is cut short
+		{Name: "ns-3txn-deep", Slots: [][]string{full, full, wrs}, MaxOps: []int{2, 2, 1}, SlotEnds: [][]string{cd, {"commit"}, {"commit"}}, Reduce: true},
 	}
 }
 
